@@ -267,10 +267,22 @@ func (x *vc) reflectModel(fr *frame, st *state, callee *ssa.Function, args []Val
 	case "(reflect.Value).MapKeys":
 		need("MapKeys", eq(kind(v), "21"), "receiver must be a Map")
 		r := x.freshVal("mapkeys", resT, st)
-		x.assume(st.guard, and(eq(app("sl_len", r.T), app("rv_len", v)), app(">", app("sl_arr", r.T), "0")))
+		x.assume(st.guard, and(eq(app("sl_len", r.T), app("rv_len", v)), app(">", app("sl_arr", r.T), "0"), app(">=", app("sl_off", r.T), "0"), app("<=", app("sl_len", r.T), app("sl_cap", r.T))))
+		// documented: every key present in the map, once. Each element is a valid Value (interfaceable when the map
+		// is), MapIndex of it is valid, and the keys are pairwise different (rv_keyord: the key's position in the list).
+		if sl, ok := resT.Underlying().(*types.Slice); ok {
+			es, esrt := x.elemArr(st, sl.Elem())
+			ea := x.heapArr(st, es, esrt)
+			// quantified over the absolute position m in the backing array (a pattern with arithmetic in it is not matched reliably)
+			el := fmt.Sprintf("(select (select %s (sl_arr %s)) m)", ea, r.T)
+			x.needDecl("(declare-fun rv_keyord (Int Int) Int)")
+			x.assume(st.guard, fmt.Sprintf("(forall ((m Int)) (! (=> (and (<= (sl_off %s) m) (< m (+ (sl_off %s) (sl_len %s)))) (and %s (rv_valid %s) (= (rv_canif %s) (rv_canif %s)) (not (rv_canaddr %s)) (rv_valid (rv_mapindex %s %s)) (= (rv_keyord %s %s) m))) :pattern (%s)))",
+				r.T, r.T, r.T, rvInv(el), el, el, v, el, v, el, v, el, el))
+		}
 		return r, true
 	case "(reflect.Value).SetMapIndex":
-		need("SetMapIndex", and(eq(kind(v), "21"), app("rv_canif", v), not(app("rv_isnil", v))), "receiver must be a non-nil Map obtained without unexported fields")
+		// deleting (zero elem) from a nil map is a no-op; storing into one panics
+		need("SetMapIndex", and(eq(kind(v), "21"), app("rv_canif", v), app("rv_valid", args[1].T), app("rv_canif", args[1].T), implies(app("rv_valid", args[2].T), and(not(app("rv_isnil", v)), app("rv_canif", args[2].T)))), "receiver must be a Map obtained without unexported fields, non-nil when an element is stored; key and element usable (not obtained through unexported fields)")
 		return Val{}, true
 	case "(reflect.Value).Set":
 		need("Set", and(app("rv_canset", v), app("rv_valid", args[1].T), app("rv_canif", args[1].T)), "receiver must be settable (addressable, exported) and the argument valid and not obtained through an unexported field")
@@ -278,7 +290,8 @@ func (x *vc) reflectModel(fr *frame, st *state, callee *ssa.Function, args []Val
 	case "(reflect.Value).NumField":
 		need("NumField", eq(kind(v), "25"), "receiver must be a Struct")
 		r := x.freshVal("numfield", intT, st)
-		x.assume(st.guard, and(app("<=", "0", r.T), eq(r.T, app("rv_numfield", v))))
+		x.needDecl("(declare-fun rt_numfield (Int) Int)")
+		x.assume(st.guard, and(app("<=", "0", r.T), eq(r.T, app("rv_numfield", v)), eq(app("rv_numfield", v), app("rt_numfield", app("rv_type", v)))))
 		return r, true
 	case "(reflect.Value).Field":
 		need("Field", and(eq(kind(v), "25"), app("<=", "0", args[1].T), app("<", args[1].T, app("rv_numfield", v))), "receiver must be a Struct and the index in range")
@@ -289,6 +302,17 @@ func (x *vc) reflectModel(fr *frame, st *state, callee *ssa.Function, args []Val
 		need("FieldByName", eq(kind(v), "25"), "receiver must be a Struct")
 		r := newRV("rvfieldbyname")
 		x.assume(st.guard, implies(app("rv_canif", r.T), app("rv_canif", v)))
+		return r, true
+	case "(reflect.Value).FieldByIndex":
+		// index path: the first index must be in range (the nested ones are not modelled)
+		need("FieldByIndex", eq(kind(v), "25"), "receiver must be a Struct")
+		if args[1].T != "" {
+			es, esrt := x.elemArr(st, types.Typ[types.Int])
+			first := fmt.Sprintf("(select (select %s (sl_arr %s)) (sl_off %s))", x.heapArr(st, es, esrt), args[1].T, args[1].T)
+			need("FieldByIndex.index", implies(app(">=", app("sl_len", args[1].T), "1"), and(app("<=", "0", first), app("<", first, app("rv_numfield", v)))), "the first index must be in range")
+		}
+		r := newRV("rvfieldbyindex")
+		x.assume(st.guard, and(app("rv_valid", r.T), implies(app("rv_canif", r.T), app("rv_canif", v))))
 		return r, true
 	case "(reflect.Value).Addr":
 		need("Addr", app("rv_canaddr", v), "receiver must be addressable")
